@@ -196,13 +196,14 @@ class Interp:
         return True
 
 
-def witness_search(fn_paths, seed_expr, limit=40000):
+def witness_search(fn_paths, seed_expr, limit=40000, extra=()):
     """Map boundary residues back to seeds through the modular inverse and evaluate the IR expression."""
     inv = pow(A, P - 2, P)
     cands = []
     for r in list(range(1, limit)) + list(range(P - 2000, P)):
         cands.append((r * inv) % P)
     cands += [1, 2, P - 1, 65535, 65536, 0x7fff0000, 0x40000000]
+    cands = list(extra) + cands
     for s in cands:
         if not (1 <= s <= P - 1):
             continue
@@ -259,6 +260,7 @@ def run(chk):
         return
     seed = list(seed_exprs)[0]
     failed = []
+    extra_cands = set()
     for p in ps:
         pid = "path " + "->".join(b.lstrip("%") for b in p.blocks)
         it = Interp(seed)
@@ -278,6 +280,16 @@ def run(chk):
                 elif pred in ("ult", "slt"):
                     hi_ = min(hi_, cst - 1)
                 it.refine[cc[2]] = (lo_, hi_)
+                # a bound on (x >> k) is a bound on x
+                inner = strip_casts(cc[2])
+                if inner[0] == "b" and inner[1] == "lshr" and inner[4][0] == "c":
+                    k = inner[4][2]
+                    a0, b0 = it.refine.get(inner[3], (0, 1 << 64))
+                    it.refine[inner[3]] = (max(a0, lo_ << k), min(b0, ((hi_ + 1) << k) - 1 if hi_ < (1 << 40) else b0))
+                for b_ in (lo_, hi_, lo_ << 17, ((hi_ + 1) << 17) - 1 if hi_ < (1 << 20) else 0):
+                    for d_ in (-2, -1, 0, 1, 2):
+                        if 1 <= b_ + d_ <= P - 1:
+                            extra_cands.add(b_ + d_)
         try:
             v = it.ev(p.ret)
         except Top as t:
@@ -300,7 +312,19 @@ def run(chk):
         chk.ob("M4.state", pid, len(st) == 1 and st[0].val == p.ret,
                "the new state stored to *seedp is the returned value", (st[0].inst.loc if st else p.ret_inst.loc), fn.name)
     if failed:
-        w = witness_search(ps, seed)
+        for p_ in ps:
+            for c_, t_, i_ in p_.conds:
+                for x in paths.subexprs(c_):
+                    if x[0] == "c" and 0 < x[2] < P:
+                        for sh in (0, 15, 16, 17):
+                            for d_ in (-2, -1, 0, 1, 2):
+                                v_ = (x[2] << sh) + d_
+                                if 1 <= v_ <= P - 1:
+                                    extra_cands.add(v_)
+                                v_ = ((x[2] + 1) << sh) + d_
+                                if 1 <= v_ <= P - 1:
+                                    extra_cands.add(v_)
+        w = witness_search(ps, seed, extra=sorted(extra_cands))
         for pid, rule, why, p in failed:
             if w is not None:
                 s, got, want = w
